@@ -320,6 +320,26 @@ pub fn rules_cases(rng: &mut Rng, thorough: bool) -> Vec<RsCase> {
             out.push(RsCase { tag: format!("n{} {}", n, tag), rules, facts: facts.clone(), env: env.clone(), evals: 1 });
         }
     }
+    // long rulesets: many failing rules (of one kind, and of every kind in turn) before and between succeeding ones —
+    // whatever accumulates per failing rule must not reach the rules that follow
+    let nested = |inner: Expr, depth: usize| (0..depth).fold(inner, |e, _| mk_un("not", e));
+    for n in [40usize, 70, 130, 300] {
+        for (name, k) in kinds.iter().filter(|(name, _)| name.starts_with("err-")) {
+            let mut rules: Vec<Expr> = (0..n).map(|_| k.clone()).collect();
+            rules.push(kinds[0].1.clone());
+            rules.push(kinds[2].1.clone());
+            out.push(RsCase { tag: format!("n{} long {}", n, name), rules, facts: facts.clone(), env: env.clone(), evals: 1 });
+        }
+        let mut mixed: Vec<Expr> = (0..n).map(|i| kinds[i % kinds.len()].1.clone()).collect();
+        mixed.push(kinds[0].1.clone());
+        out.push(RsCase { tag: format!("n{} long mixed", n), rules: mixed, facts: facts.clone(), env: env.clone(), evals: 2 });
+    }
+    for depth in [5usize, 15, 30] {
+        let mut rules: Vec<Expr> = (0..8).map(|_| nested(reff("nope"), depth)).collect();
+        rules.push(nested(lit(Value::Bool(true)), depth));
+        rules.push(mk_bin("mult", reff("x"), lit(Value::Int(2))));
+        out.push(RsCase { tag: format!("deep-failing depth {}", depth), rules, facts: facts.clone(), env: env.clone(), evals: 1 });
+    }
     // a few larger ones and non-map inputs
     for _ in 0..(if thorough { 3000 } else { 500 }) {
         let n = 4 + rng.below(4);
